@@ -110,7 +110,10 @@ def membership_rule(ctx, F, R="R-TABLE"):
     (unbalanced '(' positions are appended at the end): the test must be order-insensitive."""
     b = F.fn("Writer::write_string")
     # the index list is identified by data flow: the Vec<usize> that receives `append(&mut other Vec<usize>)`
-    app = [c for c in b.calls if len(c.args) == 2 and re.search(r"Vec::<.*>::append$", c.fn or "") and "usize" in (c.full or "")]
+    # (or the set of positions that is extended by the stack of open parentheses)
+    app = [c for c in b.calls if len(c.args) == 2 and re.search(r"(Vec|BTreeSet|HashSet)::<.*>::append$|iter::Extend::extend$", c.fn or "") and "usize" in (c.full or "")
+           and (lib.origin_local(F, b, c.args[1]) or (None, None, None))[0] is b and not lib.origin_local(F, b, c.args[1])[2]
+           and re.match(r"^(&mut )?std::vec::Vec<usize", b.lty(lib.origin_local(F, b, c.args[1])[1]))]
     V = None
     if len(app) == 1:
         o = lib.origin_local(F, b, app[0].args[0])
@@ -121,7 +124,7 @@ def membership_rule(ctx, F, R="R-TABLE"):
         return o is not None and o[0] is b and o[1] == V and not o[2]
     tests = [c for c in b.calls if V is not None and onV(c) and re.search(r"(contains|binary_search|binary_search_by|binary_search_by_key|partition_point|iter|into_iter|first|last|get)$", c.fn or "")]
     sorts = [c for c in b.calls if V is not None and onV(c) and re.search(r"::(sort|sort_unstable|sort_by|sort_by_key|sort_unstable_by)$", c.fn or "")]
-    bad = [c for c in tests if not re.search(r"slice::<impl \[T\]>::contains$", c.fn or "")]
+    bad = [c for c in tests if not re.search(r"(slice::<impl \[T\]>|BTreeSet::<.*>|HashSet::<.*>)::contains$", c.fn or "")]
     ok = bool(tests) and (not bad or all(any(b.dominates(s.bb, c.bb) for s in sorts) for c in bad))
     ctx.ob(R, "strings|escape-membership", ok, "the escape decision is a `contains` test on the index list (order-insensitive), or the list is sorted first", b.where(),
            what="write_string looks an index up in its list of positions to escape with %s, but the list is not sorted (positions of unclosed '(' are appended last): some bytes that must be escaped are written raw"
